@@ -79,6 +79,14 @@ CLAIMED['C07'] = dict(
     technique=PYVC + '; if-conversion of pure conditionals; bounded differential against an RFC reference negotiation',
 )
 
+CLAIMED['C20'] = dict(
+    category='proof',
+    text='Contracts on the real nested functions of healthcheck.loop (extracted from the AST, closures as parameters): loop.one against ghost success/failure streaks (counter invariant RISING => checks == ok_streak < rise, FALLING => checks == ko_streak < fall; UP only with rise consecutive successes, DOWN only with fall consecutive failures; a single contrary result only moves to FALLING/RISING when fall/rise > 1; disable file forces DISABLED; announce exactly once per iteration, with --debounce only on a change), loop.trigger (rise/fall <= 1 shortcut), loop.exabgp (nothing written for INIT/RISING/FALLING/END, one line per address otherwise; EXIT always withdraws; each line equals the reference TEMPLATE <peer> <action> route <ip> next-hop <nh|self> [med = metric + k*increase, local-preference, community or disabled-community for DOWN/DISABLED, extended/large community, per-state as-path] [path-information], compared piece by piece), loop.sigterm_handler and the main loop segment (SIGTERM / KeyboardInterrupt => exabgp(EXIT)). All discharged by z3 for every rise/fall, every metric and every option combination of the two option variants. Bounded complement: the real loop() under a scripted check for EVERY boolean history up to length 6 (10 thorough) x 7 option sets, every written line parsed by the real route parser.',
+    note='exabgp() is verified under two option variants (a: next-hop, local-preference, community, disabled-community, as-path; b: extended/large community, path-id) with neighbors unset (peer *); strings are symbolic templates (f-string structure), not character sequences; the disable-file toggles and command execution hooks are abstract.',
+    ref='DESIGN.md §6 C20',
+    technique=PYVC + ' on nested closures; string templates as symbolic parts; exhaustive bounded histories',
+)
+
 NOT_YET = 'check not built yet in this session (planned in DESIGN.md §6); not claimed until its obligations are discharged'
 NA = {}
 
